@@ -45,6 +45,18 @@ class AStream:
         self.sid, self.size, self.pos = sid, size, 0
         self.reads = 0
 
+    def seek(self, off, whence=0):
+        if whence == 0:
+            self.pos = off
+        elif whence == 1:
+            self.pos = self.pos + off
+        else:
+            self.pos = self.size + off
+        return self.pos
+
+    def tell(self):
+        return self.pos
+
     def read(self, n):
         avail = self.size - self.pos
         if avail < 0:
